@@ -299,13 +299,14 @@ CHECKS = {
   "note": "Bounds of the cfg files; 21 of the 67 registered command types are modelled, the others (streams, continuous queries, "
           "subscriptions, down-sampling, migration events, schema updates, re-sharding, node status ...) are not replayed (the design's "
           "opaque commands are not built); level 1 drives meta.Data through the exported apply functions of apply_func_base.go and mirrors "
-          "the three handlers that live in store_fsm.go (CreateDatabase, DropDatabase, CreateSqlNode); the storeFSM level needs the verif "
-          "accessor (*Store).VerifFSM (patch /verif/.work/hook-meta.diff, not committed at build time); one snapshot per behaviour; one "
+          "the three handlers that live in store_fsm.go (CreateDatabase, DropDatabase, CreateSqlNode); level 2 drives the real storeFSM "
+          "(raft.FSM Apply / Snapshot / Persist / Restore) through the verif accessor (*Store).VerifFSM with a stub for the store's network "
+          "side; one snapshot per behaviour; one "
           "partition per node, HASH sharding, one sql node; Go's map iteration order is varied by re-creating maps in shuffled order and by "
-          "the runtime's own randomisation. Open findings F-C15-1 (measurement ids lost by MeasurementInfo.clone), F-C15-2 (Clone shares "
-          "ReplicaGroups / SqlNodes with the live catalogue) and F-C15-3 (group start before MinNanoTime wraps around in the snapshot) are "
-          "re-observed and attributed only when the divergence equals the prediction of the deviation model exactly; the behaviours are "
-          "generated with the as-implemented deviations of the open entries of known_findings.json (ImplDev).",
+          "the runtime's own randomisation. The defects found by this check (F-C15-1 measurement ids lost by MeasurementInfo.clone, F-C15-2 "
+          "Clone shares ReplicaGroups / SqlNodes with the live catalogue, F-C15-3 group start before MinNanoTime wraps around in the "
+          "snapshot) are repaired by fix: commits in /repo and listed as fixed in known_findings.json; the deviation models stay in the "
+          "specification as mutation seeds and a reverted fix is reported as a violation.",
   "technique": "TLA+ spec (MetaCatalog.tla) model-checked by TLC; TLC-generated command logs replayed into three real meta.Data instances (apply-all, snapshot/restore, shuffled maps) with dump comparison after every step",
  },
  "C16": {
@@ -325,10 +326,11 @@ CHECKS = {
   "note": "Bounds of the cfg files; commands as in C15 (node leave, partition moves, shard-key changes, re-sharding, index-group pruning and "
           "CancelDelete are not modelled); CreateDatabase is offered only after CreateDbPtView with the same replica number (the protocol of "
           "handlers_process.createDatabase); schema-clean-enable explored with both values (schemas themselves are not modelled: always empty); "
-          "4 ticks of the specification = 1 hour, tick 0 a seed-drawn multiple of 12 hours (also before 1970). Open findings F-C16-1 "
-          "(overlapping live groups after a shard-duration change), F-C16-2 (dropping the default policy leaves the default dangling) and "
-          "F-C16-3 (CreateDataNode panics while a partition view exists for a database without entry) are re-observed and attributed only when "
-          "the real catalogue equals the as-implemented prediction exported by the specification exactly; a behaviour ends at a predicted panic.",
+          "4 ticks of the specification = 1 hour, tick 0 a seed-drawn multiple of 12 hours (also before 1970). The defects found by this "
+          "check (F-C16-1 overlapping live groups after a shard-duration change, F-C16-2 dropping the default policy leaves the default "
+          "dangling, F-C16-3 CreateDataNode panics while a partition view exists for a database without entry) are repaired by fix: commits "
+          "in /repo and listed as fixed in known_findings.json; their deviation models stay in the specification as mutation seeds and a "
+          "reverted fix is reported as a violation.",
   "technique": "TLA+ spec (MetaCatalog.tla) model-checked by TLC; TLC-generated command logs replayed into real meta.Data with return, state and invariant comparison after every command",
  },
 }
